@@ -245,6 +245,9 @@ type vfClient struct {
 	// PreParsed, when set, is handed to HandleCall as AuthContext.AuthSys.
 	PreParsed *AuthSysCredential
 	LastCtx   *AuthContext
+	// BodyWrap, when set, wraps the reader the handler decodes its arguments from (a slow or
+	// segmented client: the arguments arrive while the request is already admitted).
+	BodyWrap func(io.Reader) io.Reader
 }
 
 func vfRootCred() xdrw.Cred { return xdrw.AuthSys(1, "verif", 0, 0, nil) }
@@ -273,7 +276,10 @@ func (c *vfClient) rawCall(prog, vers, proc uint32, args []byte) (uint32, []byte
 	if err != nil {
 		return xid, nil, fmt.Errorf("DecodeRPCCall: %w", err)
 	}
-	body := bytes.NewReader(msg[len(msg)-rd.Len():])
+	var body io.Reader = bytes.NewReader(msg[len(msg)-rd.Len():])
+	if c.BodyWrap != nil {
+		body = c.BodyWrap(body)
+	}
 	ctx := &AuthContext{ClientIP: c.IP, ClientPort: c.Port, Credential: &call.Credential, AuthSys: c.PreParsed}
 	c.LastCtx = ctx
 	t0 := time.Now()
